@@ -37,11 +37,11 @@ def rtok(v):
     return 'o(' + ','.join(k + '=' + rtok(x) for k, x in v.items()) + ')'
 
 
-PATHS = ['/dev/ttyS3', '/dev/gnss0', '/dev/ttyACM0', '/dev/a', '/dev/b']
+PATHS = ['/dev/ttyS3', '/dev/gnss0', '/dev/ttyACM0', '/dev/a', '/dev/b', '/dev/ttyACM10', '/dev/ttyACM1', '/dev/ttyS30', 'dev/b', '/dev/b ']
 
 
 def rand_line(rng, requested):
-    k = rng.choice(['version', 'devices', 'devices', 'scalar', 'array', 'string', 'other_obj', 'nmea', 'partial', 'watch', 'tpv', 'classnum'])
+    k = rng.choice(['version', 'devices', 'devices', 'scalar', 'array', 'string', 'other_obj', 'nmea', 'partial', 'watch', 'tpv', 'classnum', 'blank', 'deep', 'classobj'])
     if k == 'version':
         return {'class': 'VERSION', 'release': rng.choice(['3.17', '3.25', 3, None]), 'rev': 'x', 'proto_major': 3}, k
     if k == 'devices':
@@ -64,7 +64,9 @@ def rand_line(rng, requested):
         return {'class': 'SKY', 'device': '/dev/a', 'satellites': [{'PRN': 1}]}, k
     if k == 'classnum':
         return {'class': 'DEVICES ', 'devices': 7}, k
-    return None, k     # nmea / partial: not JSON
+    if k == 'classobj':
+        return rng.choice([{'class': ['DEVICES']}, {'class': {'name': 'VERSION'}}, {'class': [1, [2]]}, {'class': {}}]), k
+    return None, k     # nmea / partial / blank / deep: not JSON (json.loads raises)
 
 
 def check(tier, seed):
@@ -80,7 +82,7 @@ def check(tier, seed):
         rng = C.rng_for(seed, 'C20')
         cases = []
         for _ in range(400 if tier == 'quick' else 15000):
-            requested = rng.choice([None, None, '', '/dev/ttyS3', '/dev/b', '/dev/notthere'])
+            requested = rng.choice([None, None, '', '/dev/ttyS3', '/dev/b', '/dev/notthere', '/dev/ttyACM1', '/dev/ttyS'])
             chunks_b, chunks_t, kinds, dev_msgs = [], [], set(), []
             for _c in range(rng.randrange(1, 5)):
                 if rng.random() < 0.15:
@@ -97,6 +99,12 @@ def check(tier, seed):
                         lines_t.append('X')
                     elif k == 'partial':
                         lines_b.append(b'{"class":"DEVICES","devices":[{"pa')
+                        lines_t.append('X')
+                    elif k == 'blank':
+                        lines_b.append(b'')
+                        lines_t.append('X')
+                    elif k == 'deep':
+                        lines_b.append(b'[' * rng.choice([50, 2000, 5000]))
                         lines_t.append('X')
                     else:
                         lines_b.append(json.dumps(v).encode())
